@@ -1,10 +1,12 @@
 use crate::run::Suite;
 use std::path::Path;
 
+pub mod c08;
 pub mod c21;
 
 pub fn for_property(p: &str) -> Vec<Suite> {
     match p {
+        "C08" => c08::suites(),
         "C21" => c21::suites(),
         _ => vec![],
     }
